@@ -372,3 +372,27 @@ def referenced_names(stmts) -> dict[str, int]:
 
 
 __all__ = ["ScalarGen", "gen_options", "gen_plan", "gen_history", "referenced_names", "lang"]
+
+
+def loader_program(ch: Chooser):
+    """Balanced-loader style program (MadZuri pattern): n containers whose outputs are summed,
+    averaged and compared per container; entity outputs reused in several merges."""
+    n = ch.rint(2, 4)
+    stmts: list = []
+    cont = ch.pick(["steel-chest", "iron-chest", "wooden-chest"])
+    y0 = ch.rint(-3, 3)
+    for i in range(n):
+        stmts.append(["place", f"chest{i + 1}", cont, ["lit", i, 10], ["lit", y0, 10], None])
+    stmts.append(["decl", "Bundle", "total", ["blit", [["eout", f"chest{i + 1}"] for i in range(n)]]])
+    div = -n if ch.chance(3, 4) else ch.pick([-2, -3, 2])
+    stmts.append(["decl", "Bundle", "neg_avg", ["bin", "/", ["var", "total"], ["lit", div, 10]]])
+    for i in range(n):
+        stmts.append(["decl", "Bundle", f"diff{i + 1}",
+                      ["blit", [["var", "neg_avg"], ["eout", f"chest{i + 1}"]]]])
+    ins = ch.pick(["fast-inserter", "inserter"])
+    for i in range(n):
+        stmts.append(["place", f"load{i + 1}", ins, ["lit", i, 10], ["lit", y0 - 1, 10], None])
+        q = ch.pick(["all", "any"])
+        op = ch.pick(["<", ">", "<=", ">="])
+        stmts.append(["enable", f"load{i + 1}", ["bin", op, [q, ["var", f"diff{i + 1}"]], ["lit", ch.rint(-2, 2), 10]]])
+    return stmts, n
